@@ -112,6 +112,14 @@ def gen_atom(rng, rows, depth):
 
 
 def gen_and(rng, rows, depth):
+    if rng.random() < 0.08:
+        # two or three tags of ONE kind in one AND group, each negated or not: (not a) and (not b), never not (a and b)
+        kind, sig = rng.choice([("areas", "#"), ("contexts", "@"), ("people", "%"), ("projects", "+")])
+        names = sorted({t for r in rows for t in r[kind]})
+        if len(names) >= 2:
+            pick = rng.sample(names, min(len(names), rng.choice([2, 2, 3])))
+            negs = rng.choice([["!"] * len(pick), ["!"] * len(pick), [rng.choice(["!", ""]) for _ in pick]])
+            return " ".join(n + sig + t for n, t in zip(negs, pick))
     return " ".join(gen_atom(rng, rows, depth) for _ in range(rng.choice([1, 1, 2, 2, 3])))
 
 
